@@ -98,14 +98,13 @@ pub fn builder(model: GraphModel, cfg: &RunCfg, log: &VisitLog, slog: &StateLog)
 /// Waits for the worker threads with a watchdog; never blocks forever.
 fn wait<C: Checker<GraphModel>>(
     checker: &mut C,
-    strategy: Strategy,
+    _strategy: Strategy,
     watchdog: Duration,
     out: &mut RunOut,
 ) {
     let start = Instant::now();
     let mut handles: Vec<Option<std::thread::JoinHandle<()>>> =
         checker.handles().into_iter().map(Some).collect();
-    let total = handles.len();
     loop {
         let mut alive = Vec::new();
         for (i, slot) in handles.iter_mut().enumerate() {
@@ -124,26 +123,6 @@ fn wait<C: Checker<GraphModel>>(
         if alive.is_empty() {
             out.finished = true;
             break;
-        }
-        if strategy == Strategy::OnDemand && alive == vec![total - 1] {
-            // Every worker ended; only the thread that forwards requests is left. It ends when
-            // the checker is dropped. Whether `join` copes with that is C05/C19's business.
-            // Give it a moment in case it is about to end by itself.
-            if start.elapsed() > Duration::from_millis(0) {
-                let t = Instant::now();
-                while t.elapsed() < Duration::from_millis(20) {
-                    if handles[total - 1].as_ref().map(|h| h.is_finished()).unwrap_or(true) {
-                        break;
-                    }
-                    std::thread::sleep(Duration::from_millis(1));
-                }
-                if handles[total - 1].as_ref().map(|h| h.is_finished()).unwrap_or(true) {
-                    continue;
-                }
-                out.finished = true;
-                out.only_forwarder_alive = true;
-                break;
-            }
         }
         if start.elapsed() > watchdog {
             break;
